@@ -360,6 +360,79 @@ pub fn tok_names(seq: &[usize]) -> String {
     seq.iter().map(|&t| TOK_NAMES[t]).collect::<Vec<_>>().join(" ")
 }
 
+// ------------------------------------------------------------------ periodic families
+
+/// all words over the token alphabet with min_len <= length <= max_len
+pub fn tok_words(min_len: usize, max_len: usize) -> Vec<Vec<usize>> {
+    let mut out = vec![];
+    for l in min_len..=max_len {
+        for idx in 0..(NTOK as u64).pow(l as u32) {
+            let mut w = vec![0usize; l];
+            let mut x = idx;
+            for i in (0..l).rev() {
+                w[i] = (x % NTOK as u64) as usize;
+                x /= NTOK as u64;
+            }
+            out.push(w);
+        }
+    }
+    out
+}
+
+/// header · p · u^n · v^n · s  (the caller appends nothing: an end tag is part of `s` or not present)
+#[derive(Clone, Debug, PartialEq, Eq)]
+pub struct Periodic {
+    pub p: Vec<usize>,
+    pub u: Vec<usize>,
+    pub v: Vec<usize>,
+    pub s: Vec<usize>,
+}
+
+impl Periodic {
+    pub fn name(&self) -> String {
+        format!("[{}] ({})^n ({})^n [{}]", tok_names(&self.p), tok_names(&self.u), tok_names(&self.v), tok_names(&self.s))
+    }
+    pub fn bytes(&self, n: usize) -> Vec<u8> {
+        let mut b = TOK_HEADER.to_vec();
+        for &t in &self.p {
+            b.extend_from_slice(tok_bytes(t));
+        }
+        for _ in 0..n {
+            for &t in &self.u {
+                b.extend_from_slice(tok_bytes(t));
+            }
+        }
+        for _ in 0..n {
+            for &t in &self.v {
+                b.extend_from_slice(tok_bytes(t));
+            }
+        }
+        for &t in &self.s {
+            b.extend_from_slice(tok_bytes(t));
+        }
+        b
+    }
+}
+
+/// every family with |p| <= mp, 1 <= |u| <= mu, |v| <= mv, |s| <= ms
+pub fn periodic_families(mp: usize, mu: usize, mv: usize, ms: usize) -> Vec<Periodic> {
+    let ps = tok_words(0, mp);
+    let us = tok_words(1, mu);
+    let vs = tok_words(0, mv);
+    let ss = tok_words(0, ms);
+    let mut out = Vec::with_capacity(ps.len() * us.len() * vs.len() * ss.len());
+    for p in &ps {
+        for u in &us {
+            for v in &vs {
+                for s in &ss {
+                    out.push(Periodic { p: p.clone(), u: u.clone(), v: v.clone(), s: s.clone() });
+                }
+            }
+        }
+    }
+    out
+}
+
 // ------------------------------------------------------------------ D-corpus
 
 fn at(name: &str, values: Vec<Val>) -> Attr {
